@@ -11,6 +11,8 @@ PA(nm, ty, row) == [t |-> "arr", ty |-> ty, x |-> nm, shape |-> <<>>, rows |-> <
 TdmPre == << PA("p0", "float", <<F(1, 2), NegE(F(3, 2)), I(2)>>), PA("p1", "int", <<I(1), I(0)>>), PA("p2", "complex", <<Cpx(1, -2)>>),
              PA("p10", "float", <<F(1, 4), F(3, 4)>>), PA("p123", "int", <<I(7)>>),
              [t |-> "var", ty |-> "float", x |-> "v", e |-> F(3, 2)],
+             [t |-> "var", ty |-> "str", x |-> "lbl", e |-> SStr("ab c")], [t |-> "var", ty |-> "bool", x |-> "flag", e |-> BoolE(TRUE)],
+             [t |-> "var", ty |-> "complex", x |-> "zc", e |-> Cpx(1, -2)], [t |-> "var", ty |-> "int", x |-> "nn", e |-> I(3)],
              PA("W", "float", <<F(1, 4), F(3, 4)>>), PA("p1x", "int", <<I(7)>>),      \* ordinary arrays with exactly the data of p10 / p123 (passed by value)
              [t |-> "arr", ty |-> "float", x |-> "M", shape |-> <<>>, rows |-> << <<F(1, 2), I(2)>>, <<F(5, 2), NegE(I(1))>> >>] >>
 TdmItems == {
